@@ -27,9 +27,20 @@ def apply(d, spec):
         f, old, new = spec[3:].split(':::')
         p = os.path.join(d, f)
         s = open(p).read()
-        if s.count(old) != 1:
+        nth = None
+        if old.startswith('#'):
+            nth, old = old[1:].split('#', 1)
+            nth = int(nth)
+        if nth is None and s.count(old) != 1:
             raise SystemExit('edit: %r occurs %d times in %s' % (old, s.count(old), f))
-        open(p, 'w').write(s.replace(old, new))
+        if nth is None:
+            s = s.replace(old, new)
+        else:
+            parts = s.split(old)
+            if len(parts) <= nth:
+                raise SystemExit('edit: %r occurs only %d times' % (old, len(parts) - 1))
+            s = old.join(parts[:nth]) + new + old.join(parts[nth:])
+        open(p, 'w').write(s)
     else:
         r = subprocess.run(['patch', '-p1', '-s', '-d', d, '-i', os.path.abspath(spec)])
         if r.returncode:
